@@ -1,41 +1,94 @@
-/* objtree_h: harness for the object-path tree (C20).
+/* objtree_h: harness for the object-path tree and message dispatch (C20).
  * One history per line on stdin, one result line on stdout (see ml/objtree/driver.ml
  * for the op syntax).  First token selects the entry level:
- *   c  a real DBusConnection pair (private client connection + the connection a
- *      DBusServer in this process accepted for it, over a unix socket); handlers are
- *      registered on the client connection with dbus_connection_try_register_*,
- *      method calls are sent from the server-side connection and the reply that
- *      comes back (method return from a handler / automatic error / default
- *      Introspect XML) is what gets reported;
+ *   c  a real DBusConnection pair (private client connection = host of the tree + the
+ *      connection a DBusServer in this process accepted for it = the peer, over a unix
+ *      socket); handlers are registered on the host with dbus_connection_try_register_*,
+ *      messages are sent from the peer and whatever comes back for them (method return
+ *      from a callback / automatic error / default Introspect XML / Peer built-ins /
+ *      nothing) is what gets reported;
  *   t  the internal _dbus_object_tree_* API on a tree without connection (volume);
  *      here the H/M/O letter is derived from the DBusHandlerResult and *found_object.
+ *
+ * All callbacks (object-path handlers and connection filters) are one scripted
+ * function: it logs its id; if its id is in the current out-of-memory set and has not
+ * yet said so for this message it returns NEED_MEMORY; otherwise it performs the
+ * register/unregister actions scripted for its id and returns HANDLED (after sending a
+ * method return when the message is a method call) or NOT_YET_HANDLED.
  */
 #include "common.h"
 #include <stdint.h>
 #include <dbus/dbus-object-tree.h>
 
 #define IFACE "com.example.Verif"
-#define MAXLOG 256
+#define MAXLOG 512
+#define MAXACT 64
 
 static int inv_log[MAXLOG];
 static int n_inv;
+static int unreg_log[MAXLOG];
 static int n_unreg;
 
-static void unreg_cb (DBusConnection *c, void *data) { (void) c; (void) data; n_unreg++; }
+static DBusConnection *host, *caller;   /* host: tree under test; caller: peer */
+static DBusObjectTree *cur_tree;        /* mode t */
 
-static DBusHandlerResult handler_cb (DBusConnection *c, DBusMessage *m, void *data)
+/* script of the message being dispatched */
+static dbus_uint64_t cur_accept, cur_oom, oom_used;
+static struct { int id; char kind; char path[160]; int hid; } acts[MAXACT];
+static int n_acts;
+
+static void unreg_cb (DBusConnection *c, void *data) { (void) c; if (n_unreg < MAXLOG) unreg_log[n_unreg++] = (int) (intptr_t) data; }
+static DBusHandlerResult scripted_cb (DBusConnection *c, DBusMessage *m, void *data);
+static const DBusObjectPathVTable vtable = { unreg_cb, scripted_cb, NULL, NULL, NULL, NULL };
+
+static dbus_bool_t do_register (int fallback, const char *path, int id, DBusError *e)
 {
-  int id = (int) (intptr_t) data;
-  dbus_uint64_t mask = 0;
-  if (n_inv < MAXLOG) inv_log[n_inv++] = id;
-  if (!dbus_message_get_args (m, NULL, DBUS_TYPE_UINT64, &mask, DBUS_TYPE_INVALID))
-    mask = 0;
-  if (id >= 0 && id < 64 && (mask >> id) & 1)
+  void *ud = (void *) (intptr_t) id;
+  if (host != NULL)
+    return fallback ? dbus_connection_try_register_fallback (host, path, &vtable, ud, e)
+                    : dbus_connection_try_register_object_path (host, path, &vtable, ud, e);
+  else
     {
-      if (c != NULL)
+      char **dec = NULL; dbus_bool_t ok;
+      if (!_dbus_decompose_path (path, (int) strlen (path), &dec, NULL)) abort ();
+      ok = _dbus_object_tree_register (cur_tree, fallback, (const char **) dec, &vtable, ud, e);
+      dbus_free_string_array (dec);
+      return ok;
+    }
+}
+
+static void do_unregister (const char *path)
+{
+  if (host != NULL) { if (!dbus_connection_unregister_object_path (host, path)) abort (); }
+  else
+    {
+      char **dec = NULL;
+      if (!_dbus_decompose_path (path, (int) strlen (path), &dec, NULL)) abort ();
+      _dbus_object_tree_unregister_and_unlock (cur_tree, (const char **) dec);
+      dbus_free_string_array (dec);
+    }
+}
+
+static DBusHandlerResult scripted_cb (DBusConnection *c, DBusMessage *m, void *data)
+{
+  int id = (int) (intptr_t) data, i;
+  dbus_uint64_t bit = (id >= 0 && id < 64) ? ((dbus_uint64_t) 1) << id : 0;
+  if (n_inv < MAXLOG) inv_log[n_inv++] = id;
+  if ((cur_oom & bit) && !(oom_used & bit)) { oom_used |= bit; return DBUS_HANDLER_RESULT_NEED_MEMORY; }
+  for (i = 0; i < n_acts; i++)
+    if (acts[i].id == id)
+      {
+        if (acts[i].kind == 'u') do_unregister (acts[i].path);
+        else { DBusError e = DBUS_ERROR_INIT; do_register (acts[i].kind == 'f', acts[i].path, acts[i].hid, &e); dbus_error_free (&e); }
+      }
+  if (cur_accept & bit)
+    {
+      if (c != NULL && dbus_message_get_type (m) == DBUS_MESSAGE_TYPE_METHOD_CALL)
         {
+          dbus_uint32_t v = (dbus_uint32_t) id;
           DBusMessage *r = dbus_message_new_method_return (m);
-          if (r == NULL || !dbus_connection_send (c, r, NULL)) abort ();
+          if (r == NULL || !dbus_message_append_args (r, DBUS_TYPE_UINT32, &v, DBUS_TYPE_INVALID) ||
+              !dbus_connection_send (c, r, NULL)) abort ();
           dbus_message_unref (r);
         }
       return DBUS_HANDLER_RESULT_HANDLED;
@@ -43,7 +96,46 @@ static DBusHandlerResult handler_cb (DBusConnection *c, DBusMessage *m, void *da
   return DBUS_HANDLER_RESULT_NOT_YET_HANDLED;
 }
 
-static const DBusObjectPathVTable vtable = { unreg_cb, handler_cb, NULL, NULL, NULL, NULL };
+static void script_clear (void) { cur_accept = cur_oom = oom_used = 0; n_acts = 0; }
+
+static dbus_uint64_t parse_mask (const char *s)
+{
+  dbus_uint64_t m = 0;
+  if (s == NULL || !strcmp (s, "-")) return 0;
+  while (*s)
+    {
+      int id = (int) strtol (s, (char **) &s, 10);
+      if (id >= 0 && id < 64) m |= ((dbus_uint64_t) 1) << id;
+      if (*s == ',') s++;
+    }
+  return m;
+}
+
+/* "<id>=<op>+<op>;<id>=<op>" with op  r~/path~hid | f~/path~hid | u~/path */
+static void parse_actions (char *s)
+{
+  char *save1 = NULL, *grp;
+  n_acts = 0;
+  if (s == NULL || !strcmp (s, "-")) return;
+  for (grp = strtok_r (s, ";", &save1); grp != NULL; grp = strtok_r (NULL, ";", &save1))
+    {
+      char *eq = strchr (grp, '='), *save2 = NULL, *o;
+      int id;
+      if (eq == NULL) continue;
+      *eq++ = 0; id = atoi (grp);
+      for (o = strtok_r (eq, "+", &save2); o != NULL; o = strtok_r (NULL, "+", &save2))
+        {
+          char *p1 = strchr (o, '~'), *p2;
+          if (p1 == NULL || n_acts >= MAXACT) continue;
+          *p1++ = 0; p2 = strchr (p1, '~');
+          if (p2 != NULL) *p2++ = 0;
+          acts[n_acts].id = id; acts[n_acts].kind = o[0];
+          snprintf (acts[n_acts].path, sizeof acts[n_acts].path, "%s", p1);
+          acts[n_acts].hid = p2 ? atoi (p2) : 0;
+          n_acts++;
+        }
+    }
+}
 
 /* ---- connection pair ---------------------------------------------------- */
 static DBusServer *server;
@@ -70,7 +162,27 @@ static void server_init (void)
   if (!dbus_server_set_watch_functions (server, add_watch, remove_watch, toggle_watch, NULL, NULL)) abort ();
 }
 
-static DBusConnection *host, *caller;   /* host: tree under test; caller: peer */
+/* peer side: remember what comes back for the message under test; answer Echo calls */
+static dbus_uint32_t want_serial;
+static DBusMessage *got_reply;
+
+static DBusHandlerResult caller_filter (DBusConnection *c, DBusMessage *m, void *d)
+{
+  (void) d;
+  if (want_serial != 0 && dbus_message_get_reply_serial (m) == want_serial && got_reply == NULL)
+    {
+      got_reply = dbus_message_ref (m);
+      return DBUS_HANDLER_RESULT_HANDLED;
+    }
+  if (dbus_message_is_method_call (m, IFACE, "Echo"))
+    {
+      DBusMessage *r = dbus_message_new_method_return (m);
+      if (r == NULL || !dbus_connection_send (c, r, NULL)) abort ();
+      dbus_message_unref (r);
+      return DBUS_HANDLER_RESULT_HANDLED;
+    }
+  return DBUS_HANDLER_RESULT_NOT_YET_HANDLED;
+}
 
 static void pump (void)
 {
@@ -95,6 +207,7 @@ static void pair_open (void)
   if (accepted == NULL) abort ();
   caller = accepted;
   dbus_connection_set_exit_on_disconnect (caller, FALSE);
+  if (!dbus_connection_add_filter (caller, caller_filter, NULL, NULL)) abort ();
   guard = 0;
   while ((!dbus_connection_get_is_authenticated (host) || !dbus_connection_get_is_authenticated (caller)) && guard++ < 100000)
     pump ();
@@ -103,11 +216,12 @@ static void pair_open (void)
 
 static void pair_close (void)
 {
+  script_clear ();
   dbus_connection_close (host);
   dbus_connection_close (caller);
   while (dbus_connection_dispatch (host) == DBUS_DISPATCH_DATA_REMAINS) ;
   while (dbus_connection_dispatch (caller) == DBUS_DISPATCH_DATA_REMAINS) ;
-  dbus_connection_unref (host);
+  dbus_connection_unref (host);      /* last reference: _dbus_object_tree_free_all_unlocked runs */
   dbus_connection_unref (caller);
   host = caller = NULL;
 }
@@ -127,15 +241,31 @@ static DBusMessage *roundtrip (DBusMessage *m)
   return r;
 }
 
+/* send any message from the peer; a Peer.Ping round trip behind it is the barrier: messages are
+ * dispatched in order, so when the Ping answer is here the message has been dealt with completely */
+static DBusMessage *send_and_settle (DBusMessage *m)
+{
+  DBusMessage *ping, *pr, *r;
+  got_reply = NULL; want_serial = 0;
+  if (!dbus_connection_send (caller, m, &want_serial)) abort ();
+  ping = dbus_message_new_method_call (NULL, "/", DBUS_INTERFACE_PEER, "Ping");
+  if (ping == NULL) abort ();
+  pr = roundtrip (ping);
+  dbus_message_unref (ping);
+  dbus_message_unref (pr);
+  r = got_reply; got_reply = NULL; want_serial = 0;
+  return r;
+}
+
 /* ---- output helpers ------------------------------------------------------ */
 static int first_tok = 1;
 static void sep (void) { if (!first_tok) putchar (' '); first_tok = 0; }
 
-static void print_invoked (void)
+static void print_ids (const int *v, int n)
 {
   int i;
-  if (n_inv == 0) putchar ('-');
-  for (i = 0; i < n_inv; i++) printf ("%s%d", i ? "," : "", inv_log[i]);
+  if (n == 0) putchar ('-');
+  for (i = 0; i < n; i++) printf ("%s%d", i ? "," : "", v[i]);
 }
 
 static void print_names (char **v)
@@ -143,27 +273,6 @@ static void print_names (char **v)
   int i;
   if (v == NULL || v[0] == NULL) { putchar ('-'); return; }
   for (i = 0; v[i] != NULL; i++) printf ("%s%s", i ? "," : "", v[i]);
-}
-
-static dbus_uint64_t parse_mask (const char *s)
-{
-  dbus_uint64_t m = 0;
-  if (s == NULL || !strcmp (s, "-")) return 0;
-  while (*s)
-    {
-      int id = (int) strtol (s, (char **) &s, 10);
-      if (id >= 0 && id < 64) m |= ((dbus_uint64_t) 1) << id;
-      if (*s == ',') s++;
-    }
-  return m;
-}
-
-static void print_outcome_of_reply (DBusMessage *r)
-{
-  if (dbus_message_get_type (r) == DBUS_MESSAGE_TYPE_METHOD_RETURN) putchar ('H');
-  else if (dbus_message_is_error (r, DBUS_ERROR_UNKNOWN_METHOD)) putchar ('M');
-  else if (dbus_message_is_error (r, DBUS_ERROR_UNKNOWN_OBJECT)) putchar ('O');
-  else printf ("E[%s]", dbus_message_get_error_name (r) ? dbus_message_get_error_name (r) : "?");
 }
 
 /* child names out of the default Introspect XML */
@@ -183,38 +292,83 @@ static void print_xml_children (const char *xml)
   if (n == 0) putchar ('-');
 }
 
+/* H return from a scripted callback, P empty return (Peer.Ping), G return with a string or an error
+ * other than the two below (Peer.GetMachineId), I<children> Introspect XML, M / O errors, N nothing */
+static void print_reply (DBusMessage *r, int expect_xml)
+{
+  const char *s = NULL; dbus_uint32_t u;
+  if (r == NULL) { putchar ('N'); return; }
+  if (dbus_message_get_type (r) == DBUS_MESSAGE_TYPE_METHOD_RETURN)
+    {
+      if (dbus_message_get_args (r, NULL, DBUS_TYPE_UINT32, &u, DBUS_TYPE_INVALID)) putchar ('H');
+      else if (dbus_message_get_args (r, NULL, DBUS_TYPE_STRING, &s, DBUS_TYPE_INVALID))
+        {
+          if (expect_xml || strstr (s, "<node") != NULL) { putchar ('I'); print_xml_children (s); }
+          else putchar ('G');
+        }
+      else putchar ('P');
+    }
+  else if (dbus_message_is_error (r, DBUS_ERROR_UNKNOWN_METHOD)) putchar ('M');
+  else if (dbus_message_is_error (r, DBUS_ERROR_UNKNOWN_OBJECT)) putchar ('O');
+  else if (dbus_message_get_type (r) == DBUS_MESSAGE_TYPE_ERROR) putchar ('G');
+  else printf ("?type%d", dbus_message_get_type (r));
+}
+
+static DBusMessage *make_message (const char *kind, const char *path)
+{
+  DBusMessage *m;
+  const char *iface = kind[1] == 'p' ? DBUS_INTERFACE_PEER : kind[1] == 'i' ? DBUS_INTERFACE_INTROSPECTABLE : kind[1] == 'o' ? IFACE : NULL;
+  const char *member = kind[2] == 'p' ? "Ping" : kind[2] == 'g' ? "GetMachineId" : kind[2] == 'i' ? "Introspect" : kind[2] == 'x' ? "Act" : NULL;
+  int type = kind[0] == 'c' ? DBUS_MESSAGE_TYPE_METHOD_CALL : kind[0] == 's' ? DBUS_MESSAGE_TYPE_SIGNAL :
+             kind[0] == 'r' ? DBUS_MESSAGE_TYPE_METHOD_RETURN : DBUS_MESSAGE_TYPE_ERROR;
+  m = dbus_message_new (type);
+  if (m == NULL) abort ();
+  if (strcmp (path, "-") != 0 && !dbus_message_set_path (m, path)) abort ();
+  if (iface != NULL && !dbus_message_set_interface (m, iface)) abort ();
+  if (member != NULL && !dbus_message_set_member (m, member)) abort ();
+  if (type == DBUS_MESSAGE_TYPE_ERROR && !dbus_message_set_error_name (m, "com.example.Verif.Error")) abort ();
+  if ((type == DBUS_MESSAGE_TYPE_ERROR || type == DBUS_MESSAGE_TYPE_METHOD_RETURN) &&
+      !dbus_message_set_reply_serial (m, 0x7fff0001u)) abort ();      /* names no pending call */
+  return m;
+}
+
 /* ---- one history ---------------------------------------------------------- */
+static char *next_field (char **s)
+{
+  char *r = *s, *c;
+  if (r == NULL) return NULL;
+  c = strchr (r, ':');
+  if (c != NULL) { *c = 0; *s = c + 1; } else *s = NULL;
+  return r;
+}
+
 static void run_history (int conn_mode, char *rest)
 {
-  DBusObjectTree *tree = NULL;
   char *save = NULL, *tok;
+  int closed = 0;
   first_tok = 1;
+  n_unreg = 0;
+  script_clear ();
   if (conn_mode) pair_open ();
-  else { tree = _dbus_object_tree_new (NULL); if (tree == NULL) abort (); }
+  else { cur_tree = _dbus_object_tree_new (NULL); if (cur_tree == NULL) abort (); }
 
   for (tok = strtok_r (rest, " ", &save); tok != NULL; tok = strtok_r (NULL, " ", &save))
     {
       char kind = tok[0];
-      char *path = tok[1] == ':' ? tok + 2 : NULL;
-      char *arg = NULL;
+      char *fields = (tok[1] == ':') ? tok + 2 : NULL;
+      char *path = next_field (&fields);
+      char *arg = next_field (&fields);
       char **dec = NULL;
-      if (path == NULL) { sep (); printf ("?bad-op"); continue; }
-      arg = strchr (path, ':');
-      if (arg != NULL) *arg++ = 0;
       sep ();
-      if (!conn_mode && !_dbus_decompose_path (path, (int) strlen (path), &dec, NULL)) abort ();
+      if (closed || (path == NULL && kind != 'z' && kind != 'p')) { printf ("?bad-op"); continue; }
+      if (!conn_mode && path != NULL && path[0] == '/' && !_dbus_decompose_path (path, (int) strlen (path), &dec, NULL)) abort ();
+      script_clear ();
       switch (kind)
         {
         case 'r': case 'f':
           {
             DBusError e = DBUS_ERROR_INIT;
-            dbus_bool_t ok;
-            void *ud = (void *) (intptr_t) atoi (arg ? arg : "0");
-            if (conn_mode)
-              ok = kind == 'f' ? dbus_connection_try_register_fallback (host, path, &vtable, ud, &e)
-                               : dbus_connection_try_register_object_path (host, path, &vtable, ud, &e);
-            else
-              ok = _dbus_object_tree_register (tree, kind == 'f', (const char **) dec, &vtable, ud, &e);
+            dbus_bool_t ok = do_register (kind == 'f', path, atoi (arg ? arg : "0"), &e);
             if (ok) printf (dbus_error_is_set (&e) ? "1!error-set" : "1");
             else if (dbus_error_has_name (&e, DBUS_ERROR_OBJECT_PATH_IN_USE)) printf ("0");
             else printf ("0![%s]", dbus_error_is_set (&e) ? e.name : "no-error");
@@ -224,39 +378,52 @@ static void run_history (int conn_mode, char *rest)
         case 'u':
           {
             int before = n_unreg;
-            if (conn_mode) { if (!dbus_connection_unregister_object_path (host, path)) abort (); }
-            else _dbus_object_tree_unregister_and_unlock (tree, (const char **) dec);
+            do_unregister (path);
             printf ("u%d", n_unreg - before);
+            break;
+          }
+        case 'F': case 'G':      /* add / remove a connection filter */
+          {
+            void *ud = (void *) (intptr_t) atoi (path);
+            if (!conn_mode) { printf ("?bad-op"); break; }
+            if (kind == 'F') { if (!dbus_connection_add_filter (host, scripted_cb, ud, NULL)) abort (); }
+            else dbus_connection_remove_filter (host, scripted_cb, ud);
+            printf ("-");
             break;
           }
         case 'c': case 'i':
           {
             DBusMessage *m = kind == 'c' ? dbus_message_new_method_call (NULL, path, IFACE, "Act")
                                          : dbus_message_new_method_call (NULL, path, DBUS_INTERFACE_INTROSPECTABLE, "Introspect");
-            dbus_uint64_t mask = parse_mask (arg);
             if (m == NULL) abort ();
-            if (kind == 'c' && !dbus_message_append_args (m, DBUS_TYPE_UINT64, &mask, DBUS_TYPE_INVALID)) abort ();
+            cur_accept = kind == 'c' ? parse_mask (arg) : 0;
             n_inv = 0;
             if (conn_mode)
               {
                 DBusMessage *r = roundtrip (m);
-                printf ("%c=", kind); print_invoked (); putchar (':');
-                if (kind == 'c') print_outcome_of_reply (r);
+                printf ("%c=", kind); print_ids (inv_log, n_inv); putchar (':');
+                if (kind == 'c')
+                  {
+                    if (dbus_message_get_type (r) == DBUS_MESSAGE_TYPE_METHOD_RETURN) putchar ('H');
+                    else if (dbus_message_is_error (r, DBUS_ERROR_UNKNOWN_METHOD)) putchar ('M');
+                    else if (dbus_message_is_error (r, DBUS_ERROR_UNKNOWN_OBJECT)) putchar ('O');
+                    else printf ("E[%s]", dbus_message_get_error_name (r) ? dbus_message_get_error_name (r) : "?");
+                  }
                 else
                   {
                     const char *xml = NULL;
                     if (dbus_message_get_type (r) == DBUS_MESSAGE_TYPE_METHOD_RETURN &&
                         dbus_message_get_args (r, NULL, DBUS_TYPE_STRING, &xml, DBUS_TYPE_INVALID))
                       print_xml_children (xml);
-                    else { printf ("!"); print_outcome_of_reply (r); }
+                    else printf ("!err");
                   }
                 dbus_message_unref (r);
               }
             else
               {
                 dbus_bool_t found = 2;
-                DBusHandlerResult res = _dbus_object_tree_dispatch_and_unlock (tree, m, &found);
-                printf ("%c=", kind); print_invoked (); putchar (':');
+                DBusHandlerResult res = _dbus_object_tree_dispatch_and_unlock (cur_tree, m, &found);
+                printf ("%c=", kind); print_ids (inv_log, n_inv); putchar (':');
                 if (kind == 'i') printf ("?bad-op");   /* no connection, no reply: the default Introspect cannot run */
                 else if (res == DBUS_HANDLER_RESULT_HANDLED) putchar ('H');
                 else if (res == DBUS_HANDLER_RESULT_NOT_YET_HANDLED)
@@ -268,13 +435,62 @@ static void run_history (int conn_mode, char *rest)
             dbus_message_unref (m);
             break;
           }
+        case 'd':    /* d:<path|->:<accept>:<oom>:<kind>:<actions> — any message through the whole dispatch */
+          {
+            char *oom = next_field (&fields), *mk = next_field (&fields), *ac = next_field (&fields);
+            DBusMessage *m, *r;
+            if (!conn_mode || mk == NULL || strlen (mk) != 3) { printf ("?bad-op"); break; }
+            cur_accept = parse_mask (arg); cur_oom = parse_mask (oom); oom_used = 0;
+            parse_actions (ac);
+            m = make_message (mk, path);
+            n_inv = 0;
+            r = send_and_settle (m);
+            printf ("d="); print_ids (inv_log, n_inv); putchar (':');
+            print_reply (r, mk[2] == 'i');
+            if (r != NULL) dbus_message_unref (r);
+            dbus_message_unref (m);
+            break;
+          }
+        case 'p':    /* the host calls the peer; the reply must go to the pending call and to nobody else */
+          {
+            DBusMessage *m = dbus_message_new_method_call (NULL, "/peer", IFACE, "Echo"), *r;
+            DBusPendingCall *pc = NULL; long guard = 0;
+            if (!conn_mode || m == NULL) { printf ("?bad-op"); break; }
+            cur_accept = parse_mask (path);
+            n_inv = 0;
+            if (!dbus_connection_send_with_reply (host, m, &pc, 60000) || pc == NULL) abort ();
+            while (!dbus_pending_call_get_completed (pc) && guard++ < 10000000L) pump ();
+            r = dbus_pending_call_steal_reply (pc);
+            printf ("p="); print_ids (inv_log, n_inv);
+            printf (":%d", r != NULL && dbus_message_get_type (r) == DBUS_MESSAGE_TYPE_METHOD_RETURN);
+            if (r != NULL) dbus_message_unref (r);
+            dbus_pending_call_unref (pc);
+            dbus_message_unref (m);
+            break;
+          }
+        case 'g':
+          {
+            void *ud = NULL;
+            if (conn_mode) { if (!dbus_connection_get_object_path_data (host, path, &ud)) abort (); }
+            else ud = _dbus_object_tree_get_user_data_unlocked (cur_tree, (const char **) dec);
+            if (ud == NULL) printf ("g=-"); else printf ("g=%d", (int) (intptr_t) ud);
+            break;
+          }
         case 'l':
           {
             char **v = NULL;
             if (conn_mode) { if (!dbus_connection_list_registered (host, path, &v)) abort (); }
-            else if (!_dbus_object_tree_list_registered_and_unlock (tree, (const char **) dec, &v)) abort ();
+            else if (!_dbus_object_tree_list_registered_and_unlock (cur_tree, (const char **) dec, &v)) abort ();
             printf ("l="); print_names (v);
             dbus_free_string_array (v);
+            break;
+          }
+        case 'z':    /* end of life: which unregister callbacks run, in which order */
+          {
+            n_unreg = 0;
+            if (conn_mode) pair_close (); else { _dbus_object_tree_unref (cur_tree); cur_tree = NULL; }
+            closed = 1;
+            printf ("z="); print_ids (unreg_log, n_unreg);
             break;
           }
         default:
@@ -282,8 +498,7 @@ static void run_history (int conn_mode, char *rest)
         }
       dbus_free_string_array (dec);
     }
-  if (conn_mode) pair_close ();
-  else _dbus_object_tree_unref (tree);
+  if (!closed) { if (conn_mode) pair_close (); else { _dbus_object_tree_unref (cur_tree); cur_tree = NULL; } }
   putchar ('\n');
 }
 
